@@ -26,6 +26,9 @@ type Parser struct {
 	errors      []ParseError
 	defaultYear int
 	inputLen    int
+	// lineComment holds an indented comment line met by parsePosting until
+	// parseTransaction attaches it to the transaction or the posting above it.
+	lineComment *ast.Comment
 }
 
 func Parse(input string) (*ast.Journal, []ParseError) {
@@ -142,6 +145,16 @@ func (p *Parser) parseTransaction() *ast.Transaction {
 		posting := p.parsePosting()
 		if posting != nil {
 			tx.Postings = append(tx.Postings, *posting)
+		} else if c := p.lineComment; c != nil {
+			// A comment line before the first posting belongs to the transaction,
+			// a later one to the posting above it.
+			p.lineComment = nil
+			if len(tx.Postings) == 0 {
+				tx.Comments = append(tx.Comments, *c)
+			} else {
+				last := &tx.Postings[len(tx.Postings)-1]
+				last.Tags = append(last.Tags, c.Tags...)
+			}
 		}
 		if p.current.Type == TokenNewline {
 			p.advance()
@@ -244,7 +257,8 @@ func (p *Parser) parsePosting() *ast.Posting {
 	p.advance()
 
 	if p.current.Type == TokenComment {
-		p.parseComment()
+		c := p.parseComment()
+		p.lineComment = &c
 		return nil
 	}
 
